@@ -125,7 +125,15 @@ def rule_b(ctx, ix, reg):
             thr = c - 1
         elif isinstance(op, ast.NotEq):
             thr = c
-    stamped_val_ok = unparse(stamps[0].value) == 'version'
+    # the version by its role: what the saver dispatch returned next to the function
+    vnames = set()
+    for st in walk_no_nested(do.node):
+        if isinstance(st, ast.Assign) and isinstance(st.targets[0], ast.Tuple) and len(st.targets[0].elts) == 2 and \
+                isinstance(st.value, ast.Call) and call_name(st.value) == '_dispatch' and isinstance(st.targets[0].elts[1], ast.Name):
+            vnames.add(st.targets[0].elts[1].id)
+    stamped_val_ok = unparse(stamps[0].value) in vnames
+    if guard is not None and isinstance(guard.test, ast.Compare) and unparse(guard.test.left) not in vnames:
+        thr = None
     un = ix.cls(STATE + '.GlueUnSerializer')
     g = un.resolve_func('_dispatch')
     # the dispatch and the helpers of the class it hands the record to (one level)
@@ -163,7 +171,10 @@ def rule_b(ctx, ix, reg):
                   % (dflt, thr), where=g.where)
     # the loader is fetched for exactly that version
     vers = [c for p_ in parts for c in calls_in(p_.node) if call_name(c) == 'get_version']
-    ok = bool(vers) and all(len(c.args) >= 2 and unparse(c.args[1]) == 'version' for c in vers)
+    # ... the version read from the record (rec.get('_protocol', 1)), through a local or directly
+    from ..util import expand_locals as _xl
+    ok = bool(vers) and all(len(c.args) >= 2 and "'_protocol'" in unparse(_xl(p0.node, c.args[1])).replace('"', "'") for c in vers for p0 in parts
+                            if any(c is x for x in ast.walk(p0.node)))
     ctx.ob(R, g.construct, 'the loader of the record\'s own version is used', ok,
            detail='GlueUnSerializer._dispatch does not fetch the loader with get_version(type, version)', where=g.where)
 
